@@ -30,16 +30,24 @@ func Len[K, V any](m *OrderedMap[K, V]) int {
 }
 
 // finds the given key using binary search and returns it's index and wether it exists
+//
+// less only has to be a strict weak ordering: keys that are not equal (eq) are allowed to be
+// equivalent under less (neither is less than the other), e.g. alias parameters of two different
+// types with the same name. Such keys are stored next to each other (see Set), so after finding the
+// first key that is not less than the given key, the whole run of equivalent keys is checked with eq
 func (m *OrderedMap[K, V]) binarySearch(key K) (int, bool) {
 	low, high := 0, len(m.data)/2
 	for low < high {
 		mid := (low + high) / 2
-		if m.eq(m.data[mid*2].(K), key) {
-			return mid * 2, true
-		} else if m.less(m.data[mid*2].(K), key) {
+		if m.less(m.data[mid*2].(K), key) {
 			low = mid + 1
 		} else {
 			high = mid
+		}
+	}
+	for i := low; i < len(m.data)/2 && !m.less(key, m.data[i*2].(K)); i++ {
+		if m.eq(m.data[i*2].(K), key) {
+			return i * 2, true
 		}
 	}
 	return low, false
